@@ -6,35 +6,44 @@ ENV = "GOFLAGS=-mod=mod GOPROXY=off GOSUMDB=off GOTOOLCHAIN=local"
 BASE_PKGS = "./example ./example/lexer ./example/linq ./example/sched1 ./example/sched2 ./example/tree ./rewriter ./seq"
 
 # id -> (category, technique, text, note, design_ref)
+SIM = "deterministic simulation"
+TB_C = "Trusted: sim/refco (coroutine hand-off, ~170 lines), the reference renderer (same IR walk, 6 token-level differences), Go toolchain. The workload generator samples programs; it is input generation, not simulation (DESIGN.md 3)."
 CHECKS = {
- "C08": ("exploration",
-         "deterministic simulation: seeded combinator terms played by a simulated consumer on the real seq runtime vs a reference interpreter on a goroutine coroutine; history equality",
-         "Seeded search over term descriptions and consumer histories (MoveNext/Current/Send/Result/quiesce, calls after exhaustion); every run records a full event history that must equal the reference interpreter's, plus Combine laws as metamorphic runs. Sampling, not proof.",
-         "Trusted: sim/refco (coroutine hand-off), sim/layerr evalRef (structured-loop interpreter), Go runtime.",
-         "DESIGN.md 4 C08"),
+ "C01": ("exploration", SIM + ": seeded generator programs compiled by the real compiler, drained by a simulated consumer; value/termination projection of the event history vs a reference coroutine running the same source",
+         "Seeded search over programs x argument vectors; fault-free full-drain projection of the C02 simulation (weakest fit of the family, stated in DESIGN.md 4 C01). Acceptance-gate failures of in-subset programs are violations. Sampling, not proof.", TB_C, "DESIGN.md 4 C01"),
+ "C02": ("exploration", SIM + ": simulated consumer histories (new/advance/Current/quiesce, calls after exhaustion) over compiled programs; full event-history equality with a reference coroutine",
+         "Seeded search over programs x consumer histories; every run records where each generator-side effect falls relative to the consumer's calls and must equal the reference event for event (every truncation point is a prefix).", TB_C, "DESIGN.md 4 C02"),
+ "C03": ("exploration", SIM + ": scope-profile programs (shadowing, closures across yields) under simulated consumer histories; history equality with a reference coroutine",
+         "As C02 on a workload where every effect and yield reads variables in scope; decided on full histories. No schedule dimension of its own (stated).", TB_C, "DESIGN.md 4 C03"),
+ "C04": ("exploration", SIM + ": range-profile programs whose loop bodies mutate the ranged collection between consumer steps; history equality with Go's own range run as a coroutine",
+         "Loop and mutator are two actors on shared state inside the generated program; the reference executes Go's range. Multi-entry maps only with order-insensitive bodies.", TB_C, "DESIGN.md 4 C04"),
+ "C05": ("exploration", SIM + ": delegation-profile programs (half-consumed, shared, recursive delegates) under simulated consumer histories incl. truncation; history equality with a reference coroutine",
+         "Seeded search over generator call graphs x consumer histories; delegate steps per consumer step are read off the two-sided history.", TB_C, "DESIGN.md 4 C05"),
+ "C06": ("exploration", SIM + ": consumer functions (range/pull loops, early exits) over compiled generators; two-sided event history (pull counts vs deliveries) equal to the reference",
+         "Seeded search over consumer functions and iterator-typed declarations; over-pulling shows as an extra generator-side effect; incomplete type replacement shows at the acceptance gate.", TB_C, "DESIGN.md 4 C06"),
+ "C07": ("exploration", SIM + " with fault injection: the optimised and the unoptimised stage of one compiler run played on identical schedules, fault-free and with injected panics; self-relative history equality",
+         "Self-relative oracle (unopt vs opt), so translation defects filed under other properties cancel out; the hook's output is cross-checked byte for byte against production Compile on every batch.", TB_C + " Hook: rewriter.CompileStages (tag verif).", "DESIGN.md 4 C07, 6"),
+ "C08": ("exploration", SIM + ": seeded combinator terms played by a simulated consumer on the real seq runtime vs a reference interpreter on a goroutine coroutine; history equality; Combine laws as metamorphic runs",
+         "Seeded search over term descriptions and consumer histories (MoveNext/Current/Send/Result/quiesce, calls after exhaustion). Sampling, not exhaustive enumeration.", "Trusted: sim/refco, sim/layerr evalRef (structured-loop interpreter), Go runtime.", "DESIGN.md 4 C08"),
+ "C09": ("exploration", SIM + ": seeded operation histories (MoveNext/Current/Send/Result) on the real generator vs a sequential reference model; history equality",
+         "Seeded search over operation histories biased to the protocol boundaries on a family of generators; Result compared only once the model is done.", "Trusted: sim/refco as the executable model of the documented protocol.", "DESIGN.md 4 C09"),
+ "C10": ("exploration", SIM + ": iterator steps interleaved with simulated mutator/producer steps vs Go's native range run as a coroutine; bounded-exhaustive strings plus seeded inputs",
+         "Iterator and mutator/producer are two simulated actors whose step order the simulator decides; maps by a spec-derived invariant self-checked against native range. The string/integer parts have no second actor (input enumeration, stated).", "Trusted: Go's range statement as specification.", "DESIGN.md 4 C10"),
+ "C12": ("exploration", SIM + " with syntactic fault injection into the workload: one unsupported construct spliced into a supported program; oracle fail-stop (diagnostic) or history equality with the reference; negative controls must be accepted",
+         "Fault space is syntactic (said plainly in DESIGN.md); each program is its own package so rejections do not mask each other.", TB_C, "DESIGN.md 4 C12"),
+ "C13": ("exploration", SIM + ": bystander op histories (create closure / reassign callee or receiver / call) encoded in plain functions; history equality between source-built and generated package",
+         "Differential execution of co-located non-generator code with the closure-timing shapes file-wide passes endanger.", TB_C, "DESIGN.md 4 C13"),
+ "C14": ("exploration", SIM + ": seeded thread scheduler pre-empting consumer threads at op boundaries and effect points (runtime terms and compiled programs); per-iterator projection vs solo run",
+         "Seeded search over interleavings of k iterators on m simulated threads with pre-emption inside steps; self-relative oracle plus equality with the reference under the same choices. The -race supplement is runtime monitoring and not part of the verdict here.", "Trusted: sim/sched (baton passing, one runnable goroutine), sim/refco.", "DESIGN.md 4 C14"),
+ "C15": ("fault_enumeration", SIM + " of tool-run histories over a directory tree with constructed crash-restart states (every file-write point of both stages), stale and conflicting directories; byte equality with a clean run",
+         "Every crash point of every sampled layout is materialised (thorough; seeded subset in quick) and followed by a normal run; plus placement/repetition configurations.", "Trusted: crash-state construction (files in write order + torn prefix); the real file system.", "DESIGN.md 4 C15, 2.6"),
+ "C16": ("fault_enumeration", SIM + " of go:generate runs of the real cogen binary over generated package layouts with stale temporary/output state; directory snapshots, build/test, idempotence",
+         "Tool-run history per layout: snapshot, cogen, snapshot, build, type-check with tag, test, cogen, snapshot; fault variants: stale <dir>_tmp of a killed run, stale outputs of older sources.", "Trusted: directory snapshots (sha256), go build/test.", "DESIGN.md 4 C16"),
+ "C17": ("exploration", SIM + " with an invariant monitor: stack depth sampled at effect points of simulated runs (runtime terms and compiled loops), n vs 10n ladder; delegation depth linearity",
+         "Invariant monitored during simulated runs with non-yielding stretches up to 10^5 (10^6 thorough) iterations; self-relative oracle. No interleaving involved (stated).", "Trusted: runtime.Callers as depth measure.", "DESIGN.md 4 C17"),
+ "C18": ("fault_enumeration", SIM + " with fault injection: a panic armed at every effect index of every sampled run (failpoint in vrt.E), same interleaving replayed; runtime terms and compiled programs",
+         "Fault enumeration over effect indices; self-relative oracle (prefix identical, panic surfaces from the executing call with the armed value, silence afterwards, other iterators unaffected) plus the reference coroutine's history.", "Trusted: vrt.E failpoint placement; sim/refco re-raising panics in the resumer.", "DESIGN.md 4 C18"),
 }
-CHECKS.update({
- "C09": ("exploration",
-         "deterministic simulation: seeded operation histories (MoveNext/Current/Send/Result) on the real generator vs a sequential reference model; history equality",
-         "Seeded search over operation histories biased to the protocol boundaries (before start, at and after exhaustion) on a family of generators; each history must equal the sequential model's, event by event. Sampling of an unbounded history space.",
-         "Trusted: sim/refco as the executable model of the documented protocol.", "DESIGN.md 4 C09"),
- "C10": ("exploration",
-         "deterministic simulation: iterator steps interleaved with simulated mutator/producer steps vs Go's native range run as a coroutine; bounded-exhaustive strings plus seeded inputs",
-         "Iterator and mutator/producer are two simulated actors whose step order the simulator decides; the oracle is Go's own range statement under the same script (maps: spec-derived invariant). The string and integer parts have no second actor and are input enumeration/sampling.",
-         "Trusted: Go's range statement as specification; the map invariant checker (self-checked against native range on every case).", "DESIGN.md 4 C10"),
- "C14": ("exploration",
-         "deterministic simulation: seeded thread scheduler pre-empting consumer threads at op boundaries and effect points; per-iterator projection vs solo run",
-         "Seeded search over interleavings of k iterators on m simulated threads with pre-emption inside steps; oracle is self-relative (projection equals solo history) plus equality with the reference under the same choices. Runtime level only so far (compiled-program level and -race supplement pending).",
-         "Trusted: sim/sched (baton passing, one runnable goroutine), sim/refco.", "DESIGN.md 4 C14"),
- "C17": ("exploration",
-         "deterministic simulation with an invariant monitor: stack depth sampled at effect points of simulated runs, n vs 10n",
-         "Invariant monitored during simulated runs of For/While/Loop with non-yielding stretches of 10^2..10^5 iterations; self-relative oracle (depth at 10n <= depth at n + slack). No interleaving is involved (stated in DESIGN.md). Runtime level only so far.",
-         "Trusted: runtime.Callers as depth measure.", "DESIGN.md 4 C17"),
- "C18": ("fault_enumeration",
-         "deterministic simulation with fault injection: a panic armed at every effect index of every sampled run (failpoint in vrt.E), same interleaving replayed",
-         "Fault enumeration: every generator-side effect index of every sampled (terms, ops, interleaving) gets its own run with a panic armed there; oracle is self-relative (prefix identical, panic surfaces from the executing call with the armed value, silence afterwards, other iterators unaffected) plus the reference coroutine's history. Runtime level only so far.",
-         "Trusted: vrt.E failpoint placement; sim/refco re-raising panics in the resumer.", "DESIGN.md 4 C18"),
-})
 NOT_YET = {}
 NA = {
  "C11": "pure acceptance predicate over programs x configurations: no schedule, history, fault or interleaving in it, so deterministic simulation does not apply (DESIGN.md 4 C11 / 9); its shapes run through the acceptance gate of every compiled-program check and failures are reported under the property whose workload produced the program.",
